@@ -200,7 +200,7 @@ Theorem compiled_defined : forall sj c j,
 Proof.
   intros sj c j Hc. unfold compile_root in Hc.
   destruct (detect_draft sj) as [d | | |]; try discriminate.
-  destruct (compile_node d true sj) as [[sc cks] | | |]; try discriminate.
+  destruct (compile_node d (root_id sj) true sj) as [[sc cks] | | |]; try discriminate.
   cbv zeta in Hc.
   set (E := ("#"%string, sc) :: defs_of cks) in *.
   set (R := reach E (List.length E) ["#"%string]) in *.
